@@ -2,7 +2,7 @@ SPECIFICATION TraceSpec
 CONSTANTS
   Src = {1, 2}
   Tgt = {1, 2, 3}
-  MaxId = 64
+  MaxId = 400
   MaxBatch = 8
   MaxWm = 100000
   ChanCap = 100
